@@ -30,7 +30,10 @@ impl Masker for LiterateHaskellMasker {
 
         let mut location = 0;
         let mut in_code_env = false;
-        let mut last_line_blank = false;
+        // Whether the open code block was started by `\begin{code}` (rather than a bird track).
+        let mut in_latex_env = false;
+        // Nothing precedes the first line, as nothing but a blank line may precede a bird track.
+        let mut last_line_blank = true;
 
         for line in source.split(|c| *c == '\n') {
             let string_form = line.to_string();
@@ -40,11 +43,17 @@ impl Masker for LiterateHaskellMasker {
             // Code fencing
             let latex_style = matches!(trimmed, r"\begin{code}" | r"\end{code}");
             let code_start = trimmed == r"\begin{code}" || (last_line_blank && line_is_bird);
-            let code_end = trimmed == r"\end{code}" || trimmed.is_empty();
+            // A blank line ends bird-style code only: Haskell inside `\begin{code}` may have them.
+            let code_end = if in_latex_env {
+                trimmed == r"\end{code}"
+            } else {
+                trimmed.is_empty()
+            };
 
             // Toggle on fence
             if (!in_code_env && code_start) || (in_code_env && code_end) {
                 in_code_env = !in_code_env;
+                in_latex_env = in_code_env && trimmed == r"\begin{code}";
 
                 // Exclude latex-style fence
                 if latex_style {
